@@ -51,6 +51,21 @@ struct MemReader : public FileReader {
   }
 };
 
+// an in-memory disk for the loaders that go through DiskInterface
+struct MemDisk : public DiskInterface {
+  map<string, string> files;
+  TimeStamp Stat(const string& path, string* err) const override { return files.count(path) ? 1 : 0; }
+  bool WriteFile(const string& path, const string& contents, bool) override { files[path] = contents; return true; }
+  bool MakeDir(const string&) override { return true; }
+  Status ReadFile(const string& path, string* contents, string* err) override {
+    auto i = files.find(path);
+    if (i == files.end()) { *err = "not found"; return NotFound; }
+    *contents = i->second;
+    return Okay;
+  }
+  int RemoveFile(const string& path) override { return files.erase(path) ? 0 : 1; }
+};
+
 static string g_tmp;
 
 // what every tool and the builder do with a loaded manifest: expand the bindings of each statement
@@ -99,11 +114,32 @@ static void RunOne(const string& mode, const string& in) {
     DyndepParser p(&st, &r, &ddf);
     string err;
     p.Load("dd", &err);
+    // and as the graph meets it: parsed and applied to the statements that name it
+    MemDisk disk;
+    disk.files["dd"] = in;
+    DyndepLoader loader(&st, &disk, nullptr);
+    string err2;
+    if (Node* n = st.LookupNode("dd")) loader.LoadDyndeps(n, &err2);
   } else if (mode == "depfile") {
     string c = in;
     string err;
     DepfileParser p;
     p.Parse(&c, &err);
+  } else if (mode == "depload") {
+    // the depfile as the graph loader meets it: a statement with depfile= (no deps=) whose depfile is on disk at scan time
+    State st;
+    MemReader r0;
+    ManifestParser mp(&st, &r0);
+    string e;
+    mp.ParseTest("rule r\n  command = c\n  depfile = $out.d\nbuild a: r in\n", &e);
+    MemDisk disk;
+    disk.files["in"] = "x";
+    disk.files["a"] = "y";
+    disk.files["a.d"] = in;
+    static DepfileParserOptions dopts;
+    DependencyScan scan(&st, nullptr, nullptr, &disk, &dopts, nullptr);
+    string err;
+    scan.RecomputeDirty(st.LookupNode("a"), nullptr, &err);
   } else if (mode == "cl") {
     CLParser p;
     string out, err;
